@@ -126,6 +126,8 @@ def parseOp (k : Kind) (name : String) (a : List Nat) : Option Op :=
   | .L, "removeval", [v, x] => some (.lRemoveVal v x)
   | .L, "removevalref", [v, i] => some (.lRemoveValRef v i)
   | .L, "set", [v, i, x] => some (.lSet v i x)
+  | .L, "sort", [v] => some (.lSort v [])
+  | .L, "sortwith", [v, nb, bits] => if nb ≤ 24 then some (.lSort v ((List.range nb).map fun i => (bits >>> i) % 2 == 1)) else none
   | .M, "insert", [v, kk, x] => some (.mInsert ⟨.M, v⟩ kk x)
   | .M, "inserthint", [v, p, kk, x] => some (.mInsertHint ⟨.M, v⟩ p kk x)
   | .M, "insertref", [v, kk, i] => some (.mInsertRef ⟨.M, v⟩ kk i)
@@ -160,6 +162,7 @@ def parseOp (k : Kind) (name : String) (a : List Nat) : Option Op :=
   | .P, "remove", [v, i] => some (.pRemove v i)
   | .P, "removeref", [v, i] => some (.pRemoveRef v i)
   | .P, "append2", [v, x, y] => some (.pAppend v (x + y))
+  | .P, "appendn", [v, k, x] => if 3 ≤ k && k ≤ 7 then some (.pAppend v (x + k - 1)) else none
   | .P, "removechain", [v, i, j] => some (.pRemoveChain v i j)
   | .Q, "append", [v, kk, x] => some (.qAppend v kk x)
   | .Q, "remove", [v, kk] => some (.qRemove v kk)
